@@ -32,6 +32,42 @@ BASE = "mouette/processing/framefield/base.py"
 LAP = "mouette/operators/laplacian_op.py"
 
 
+# ------------------------------------------------------------------------------------------------ every anchored callable
+KNOWN_DECORATORS = {"allowed_mesh_types(SurfaceMesh)", "forbidden_mesh_types(PointCloud)", "abstractmethod", "property"}
+
+
+def find_fn(tree, qual, rel):
+    """T.find_def + the two facts no template below would notice: the callable carries no decorator other than the type checks
+    (a memoising / wrapping decorator changes what every call returns) and every default of an optional parameter is None or an
+    immutable literal (a mutable default is shared between calls)"""
+    fn = T.find_def(tree, qual, rel)
+    if isinstance(fn, ast.FunctionDef):
+        for d in fn.decorator_list:
+            if ast.unparse(d) not in KNOWN_DECORATORS:
+                T.fail(rel, fn, "unknown decorator @%s on %s" % (ast.unparse(d), qual))
+        for dflt in list(fn.args.defaults) + [x for x in fn.args.kw_defaults if x is not None]:
+            ok = isinstance(dflt, ast.Constant) or (isinstance(dflt, ast.UnaryOp) and isinstance(dflt.operand, ast.Constant))
+            if not ok:
+                T.fail(rel, fn, "default argument `%s` of %s is not None / an immutable literal" % (ast.unparse(dflt), qual))
+    return fn
+
+
+def check_signatures():
+    """the public entry points the driver calls that no template parses"""
+    for rel, quals in ((FACES, ["_BaseFrameField2DFaces.__init__", "FrameField2DFaces.__init__", "FrameField2DFaces.initialize"]),
+                       (VERTS, ["_BaseFrameField2DVertices.__init__", "FrameField2DVertices.__init__", "FrameField2DVertices.initialize"]),
+                       (BASE, ["FrameField.__init__", "FrameField._check_init", "FrameField.__getitem__"]),
+                       ("mouette/processing/framefield/framefield.py", ["SurfaceFrameField"]),
+                       (CONN, ["SurfaceConnection.__init__", "SurfaceConnection.transport", "SurfaceConnection.base",
+                               "SurfaceConnectionFaces.__init__", "SurfaceConnectionVertices.__init__", "SurfaceConnectionVertices._initialize"]),
+                       (LAP, ["cotan_edge_diagonal"]),
+                       ("mouette/optimize/eigensolve.py", ["inverse_power_method"]),
+                       ("mouette/utils/maths.py", ["roots", "angle_diff", "principal_angle"])):
+        src, tree = T.load(rel)
+        for q in quals:
+            find_fn(tree, q, rel)
+
+
 # ------------------------------------------------------------------------------------------------ matching helpers
 class Env:
     """pattern matcher over unparsed statements with named holes `{name}` for identifiers"""
@@ -191,7 +227,7 @@ def rect_expr(rel, node, syms, order_names=("order",)):
 # ------------------------------------------------------------------------------------------------ connection.py
 def gen_connection(parts):
     src, tree = T.load(CONN)
-    fn = T.find_def(tree, "SurfaceConnectionFaces._initialize", CONN)
+    fn = find_fn(tree, "SurfaceConnectionFaces._initialize", CONN)
     parts.append(("connection.SurfaceConnectionFaces._initialize", T.sha(src, fn)))
     env = Env(CONN)
     body = stmts(fn)
@@ -250,7 +286,7 @@ def gen_connection(parts):
         if hit is None:
             raise TranslationError("%s: no assignment to self._transport[(%s, %s)]" % (CONN, key[0], key[1]))
         outs[name] = unit_of_form(linear_form(CONN, hit.value, syms))
-    pj = T.find_def(tree, "SurfaceConnection.project", CONN)
+    pj = find_fn(tree, "SurfaceConnection.project", CONN)
     parts.append(("connection.SurfaceConnection.project", T.sha(src, pj)))
     e2 = Env(CONN)
     pb = stmts(pj)
@@ -322,7 +358,7 @@ def int_guard(rel, node, lhs_txt, var):
 
 
 def gen_optimize(rel, tree, src, qual, prefix, parts, faces):
-    fn = T.find_def(tree, qual, rel)
+    fn = find_fn(tree, qual, rel)
     parts.append((qual, T.sha(src, fn)))
     body = stmts(fn)
     br = [s for s in body if isinstance(s, ast.If) and ast.unparse(s.test) == "len(self.feat.feature_vertices) > 0"]
@@ -419,7 +455,7 @@ def gen_faces(parts):
     src, tree = T.load(FACES)
     out = []
     # ---- _initialize_variables
-    fn = T.find_def(tree, "_BaseFrameField2DFaces._initialize_variables", FACES)
+    fn = find_fn(tree, "_BaseFrameField2DFaces._initialize_variables", FACES)
     parts.append(("faces2d._BaseFrameField2DFaces._initialize_variables", T.sha(src, fn)))
     env = Env(FACES)
     body = stmts(fn)
@@ -470,7 +506,7 @@ def gen_faces(parts):
     out.append("(* ---- faces2d.py: FrameField2DFaces.optimize (bordered branch) *)")
     out += gen_optimize(FACES, tree, src, "FrameField2DFaces.optimize", "optf", parts, True)
     # ---- flag_singularities
-    fn = T.find_def(tree, "_BaseFrameField2DFaces.flag_singularities", FACES)
+    fn = find_fn(tree, "_BaseFrameField2DFaces.flag_singularities", FACES)
     parts.append(("faces2d._BaseFrameField2DFaces.flag_singularities", T.sha(src, fn)))
     env = Env(FACES)
     body = stmts(fn)
@@ -544,7 +580,7 @@ def gen_faces(parts):
 # ------------------------------------------------------------------------------------------------ vertex2d.py
 def gen_vertices(parts):
     src, tree = T.load(VERTS)
-    fn = T.find_def(tree, "_BaseFrameField2DVertices._initialize_variables", VERTS)
+    fn = find_fn(tree, "_BaseFrameField2DVertices._initialize_variables", VERTS)
     parts.append(("vertex2d._BaseFrameField2DVertices._initialize_variables", T.sha(src, fn)))
     body = stmts(fn)
     if len(body) != 2 or not isinstance(body[0], ast.If) or not body[0].orelse or not isinstance(body[1], ast.For):
@@ -639,7 +675,7 @@ def gen_vertices(parts):
            "Definition cstrv_norm_guard (a : T) : bool := %s." % guard_text(nop, "cstrv_norm_thr", "a"),
            "(* ---- vertex2d.py: FrameField2DVertices.optimize (bordered branch) *)"]
     out += gen_optimize(VERTS, tree, src, "FrameField2DVertices.optimize", "optv", parts, False)
-    fs = T.find_def(tree, "_BaseFrameField2DVertices.flag_singularities", VERTS)
+    fs = find_fn(tree, "_BaseFrameField2DVertices.flag_singularities", VERTS)
     parts.append(("vertex2d._BaseFrameField2DVertices.flag_singularities", T.sha(src, fs)))
     rv = attr_reset(VERTS, stmts(fs), "faces", "vertex2d.flag_singularities")
     out += ["(* ---- vertex2d.py: _BaseFrameField2DVertices.flag_singularities *)",
@@ -677,7 +713,7 @@ def stage_expr(rel, stmts_, st="st"):
 
 
 def sets_flag(rel, tree, qual, flag):
-    fn = T.find_def(tree, qual, rel)
+    fn = find_fn(tree, qual, rel)
     return any(ast.unparse(x) == "self.%s = True" % flag for x in stmts(fn))
 
 
@@ -688,7 +724,7 @@ ATTR_FUNCS = ("cotangent", "angle_defects", "corner_angles", "vertex_normals", "
 
 def cached_calls(rel, tree, src, qual, parts):
     """the attribute computations of `_initialize_attributes` that are stored on the mesh (persistent is not False)"""
-    fn = T.find_def(tree, qual, rel)
+    fn = find_fn(tree, qual, rel)
     parts.append((qual, T.sha(src, fn)))
     out = []
     for node in ast.walk(fn):
@@ -710,13 +746,13 @@ def cached_calls(rel, tree, src, qual, parts):
 
 def gen_base(parts):
     src, tree = T.load(BASE)
-    rn = T.find_def(tree, "FrameField.run", BASE)
+    rn = find_fn(tree, "FrameField.run", BASE)
     parts.append(("base.FrameField.run", T.sha(src, rn)))
     if [a.arg for a in rn.args.args] != ["self"]:
         T.fail(BASE, rn, "unexpected signature of run")
     run_txt = stage_expr(BASE, stmts(rn))
     wsrc, wtree = T.load("mouette/processing/worker.py")
-    cl = T.find_def(wtree, "Worker.__call__", "mouette/processing/worker.py")
+    cl = find_fn(wtree, "Worker.__call__", "mouette/processing/worker.py")
     if [ast.unparse(x) for x in stmts(cl)] != ["self.run(*args, **kwargs)", "return self"]:
         T.fail("mouette/processing/worker.py", cl, "__call__ is not `self.run(*args, **kwargs); return self`")
     parts.append(("worker.Worker.__call__", T.sha(wsrc, cl)))
@@ -741,7 +777,7 @@ def gen_base(parts):
                 "Definition run_step (st : ffstate) : ffstate := %s." % run_txt] + \
                ["Definition %s : bool := %s." % (k, "true" if v else "false") for k, v in sorted(flags.items())]
     RUN_DEFS.append("\n".join(run_defs))
-    fn = T.find_def(tree, "FrameField.normalize", BASE)
+    fn = find_fn(tree, "FrameField.normalize", BASE)
     parts.append(("base.FrameField.normalize", T.sha(src, fn)))
     body = stmts(fn)
     env = Env(BASE)
@@ -780,7 +816,7 @@ def gen_laplacians(parts):
     src, tree = T.load(LAP)
     out = []
     # ---- laplacian_triangles
-    fn = T.find_def(tree, "laplacian_triangles", LAP)
+    fn = find_fn(tree, "laplacian_triangles", LAP)
     parts.append(("laplacian_op.laplacian_triangles", T.sha(src, fn)))
     body = stmts(fn)
     env = Env(LAP)
@@ -848,7 +884,7 @@ def gen_laplacians(parts):
             "Definition lapt_n2_flat : cx := %s." % coefs[1][1],
             "Definition lapt_star (z : cx) : cx := %s." % star]
     # ---- laplacian (vertices)
-    fn = T.find_def(tree, "laplacian", LAP)
+    fn = find_fn(tree, "laplacian", LAP)
     parts.append(("laplacian_op.laplacian", T.sha(src, fn)))
     body = stmts(fn)
     loops = [s for s in body if isinstance(s, ast.For)]
@@ -956,6 +992,7 @@ Notation cmat := (cmat T).
 
 def gen():
     parts = []
+    check_signatures()
     secs = [gen_connection(parts), gen_faces(parts), gen_base(parts), gen_laplacians(parts), gen_vertices(parts)]
     text = T.header("C18: connection / constraint / normalisation / Laplacian / optimisation / index expressions", parts)
     text += PRELUDE + "\n" + "\n\n".join(secs) + "\n\nEnd Gen.\n"
